@@ -53,7 +53,7 @@ fn thresholds(cfg: &Cfg, rep: &mut Report) {
     let mut k = 0u64;
     for weighted in [false, true] {
         for n in 1..=5usize {
-            for variant in 0..cfg.pick(3u64, 8) {
+            for variant in 0..cfg.pick(4u64, 8) {
                 k += 1;
                 let h = 1000 + k;
                 if h % cfg.nshards as u64 != cfg.shard as u64 || !cfg.runs(h) {
@@ -77,7 +77,7 @@ fn thresholds(cfg: &Cfg, rep: &mut Report) {
                         0 => 1 + i as u32,
                         1 => 5,
                         2 => if i == 0 { 100 } else { 1 },
-                        _ => *rng.pick(&[u32::MAX / n as u32, u32::MAX / n as u32 + 1, 1_000_000, u32::MAX - 3, 2]),
+                        _ => *rng.pick(&[u32::MAX / n as u32, (u32::MAX / n as u32).saturating_add(1), 1_000_000, u32::MAX - 3, 2]),
                     })
                     .collect();
                 let total: u64 = weights.iter().map(|x| *x as u64).sum();
